@@ -1,5 +1,6 @@
-(* C10 (continued) — the EM update and the window slices.  These two kernel models are list-level (they have no
-   checked-access error value); the safety content is stated as index facts:
+(* C10 (continued) — the EM update and the window slices on the list-level models (which have no checked-access
+   error value; the checked-access index-level models of the same kernels and their refinement to these list-level
+   models are in Properties/C10_idx.v); here the safety content is stated as index facts:
    - every position window_at_index reads is a position of the sequence (all of them, each once);
    - np.searchsorted returns an index <= the length of the row's column slice, so the repaired guard
      `index < len(col_ind)` protects the read col_ind[index] (D9), and every write of an occurrence stays inside its
